@@ -49,6 +49,7 @@ type ledgerRun struct {
 	failed   bool
 	preGate  bool
 	gateBroken bool
+	undo     map[uint64][]func() // per momentum height: how to take its blocks out of the harness log again (rollback)
 }
 
 func (r *ledgerRun) fail(format string, a ...interface{}) {
@@ -104,6 +105,7 @@ func (r *ledgerRun) onMomentum(dm *nom.DetailedMomentum) {
 		return a.Height < b.Height
 	})
 	h := dm.Momentum.Height
+	addUndo := func(f func()) { r.undo[h] = append(r.undo[h], f) }
 	noteSend := func(b *nom.AccountBlock) {
 		rec := r.sends[b.Hash]
 		if rec == nil {
@@ -111,6 +113,16 @@ func (r *ledgerRun) onMomentum(dm *nom.DetailedMomentum) {
 			r.sends[b.Hash] = rec
 			r.sendList = append(r.sendList, b.Hash)
 		}
+		hash := b.Hash
+		addUndo(func() { // a rolled back momentum takes its blocks with it (the pool is emptied as well)
+			delete(r.sends, hash)
+			for i, x := range r.sendList {
+				if x == hash {
+					r.sendList = append(r.sendList[:i], r.sendList[i+1:]...)
+					break
+				}
+			}
+		})
 		rec.confirmed = h
 		r.addrs[b.Address] = true
 		r.addrs[b.ToAddress] = true
@@ -121,6 +133,8 @@ func (r *ledgerRun) onMomentum(dm *nom.DetailedMomentum) {
 		for _, b := range dm.AccountBlocks {
 			if b.Hash == hd.Hash && b.IsSendBlock() && types.IsEmbeddedAddress(b.ToAddress) {
 				r.toContractOrder[b.ToAddress] = append(r.toContractOrder[b.ToAddress], b.Hash)
+				ca := b.ToAddress
+				addUndo(func() { r.toContractOrder[ca] = r.toContractOrder[ca][:len(r.toContractOrder[ca])-1] })
 			}
 		}
 	}
@@ -171,6 +185,13 @@ func (r *ledgerRun) noteReceive(b *nom.AccountBlock) {
 		return
 	}
 	rec.received = append(rec.received, b.Header())
+	if mh := r.n.Height(); r.undo != nil {
+		r.undo[mh] = append(r.undo[mh], func() {
+			if len(rec.received) > 0 {
+				rec.received = rec.received[:len(rec.received)-1]
+			}
+		})
+	}
 	if len(rec.received) > 1 {
 		if r.preGate {
 			r.fail("C04 pre-enforcement-height: send %s (to %s) received %d times: by %s and %s", h8(rec.hash), addrName(rec.to), len(rec.received), addrName(rec.received[0].Address), addrName(b.Address))
@@ -197,6 +218,10 @@ func (r *ledgerRun) noteReceive(b *nom.AccountBlock) {
 			r.fail("C04: contract %s receive #%d answers send %s, inbox order expects %s", addrName(b.Address), k+1, h8(b.FromBlockHash), exp)
 		}
 		r.contractRecvd[b.Address] = k + 1
+		ca := b.Address
+		if mh := r.n.Height(); r.undo != nil {
+			r.undo[mh] = append(r.undo[mh], func() { r.contractRecvd[ca]-- })
+		}
 	}
 }
 
@@ -423,7 +448,7 @@ func ledgerHistory(c *Ctx, id int) {
 	n := NewNode()
 	defer n.Stop()
 	r := &ledgerRun{c: c, n: n, id: id, sends: map[types.Hash]*sendRec{}, addrs: map[types.Address]bool{}, tokens: map[types.ZenonTokenStandard]bool{},
-		toContractOrder: map[types.Address][]types.Hash{}, contractRecvd: map[types.Address]int{}, preGate: preGate}
+		toContractOrder: map[types.Address][]types.Hash{}, contractRecvd: map[types.Address]int{}, preGate: preGate, undo: map[uint64][]func(){}}
 	gate := "post"
 	if preGate {
 		gate = "pre"
@@ -655,6 +680,31 @@ func ledgerHistory(c *Ctx, id int) {
 				}
 				submit("token-update", &nom.AccountBlock{BlockType: nom.BlockTypeUserSend, Address: from, ToAddress: types.TokenContract, Data: data})
 			}
+		case x < 66 && len(issued) > 0: // two calls on the SAME token back to back (received in one momentum): supply change + update
+			t := issued[c.R.Intn(len(issued))]
+			info, _ := n.Chain().GetFrontierMomentumStore().GetTokenInfoByTs(t)
+			if info == nil || keyOf(info.Owner) == nil {
+				continue
+			}
+			owner := info.Owner
+			first := c.R.Intn(2)
+			for k := 0; k < 2; k++ {
+				if (k == 0) == (first == 0) {
+					if c.R.Intn(2) == 0 {
+						data, _ := definition.ABIToken.PackMethod(definition.MintMethodName, t, big.NewInt(int64(1+c.R.Intn(50))), owner)
+						submit("combo-mint", &nom.AccountBlock{BlockType: nom.BlockTypeUserSend, Address: owner, ToAddress: types.TokenContract, Data: data})
+					} else {
+						bal, _ := n.Chain().GetFrontierAccountStore(owner).GetBalance(t)
+						if bal != nil && bal.Sign() > 0 {
+							submit("combo-burn", &nom.AccountBlock{BlockType: nom.BlockTypeUserSend, Address: owner, ToAddress: types.TokenContract, TokenStandard: t, Amount: big.NewInt(1 + int64(c.R.Intn(int(minInt(30, int(bal.Int64())))))),
+								Data: definition.ABIToken.PackMethodPanic(definition.BurnMethodName)})
+						}
+					}
+				} else {
+					data, _ := definition.ABIToken.PackMethod(definition.UpdateTokenMethodName, t, owner, info.IsMintable, c.R.Intn(2) == 0)
+					submit("combo-update", &nom.AccountBlock{BlockType: nom.BlockTypeUserSend, Address: owner, ToAddress: types.TokenContract, Data: data})
+				}
+			}
 		case x < 80: // any method of any embedded contract with generated arguments, amounts and tokens
 			ca := allContractABIs[c.R.Intn(len(allContractABIs))]
 			names := sortedMethodNames(ca.abi)
@@ -678,6 +728,56 @@ func ledgerHistory(c *Ctx, id int) {
 			if b != nil {
 				c.Hit("call-accepted-" + embeddedNames[ca.addr][2:] + "." + m)
 			}
+		case x < 84 && n.Height() > 6 && !preGate: // reorganisation: the last 1–3 momentums are rolled back (as when a longer side chain arrives)
+			k := uint64(1 + c.R.Intn(3))
+			H := n.Height() - k
+			target, terr := n.Chain().GetFrontierMomentumStore().GetMomentumByHeight(H)
+			if terr != nil || target == nil {
+				continue
+			}
+			ins := n.Chain().AcquireInsert("zvh rollback")
+			rerr := n.Chain().RollbackTo(ins, target.Identifier())
+			ins.Unlock()
+			if rerr != nil {
+				r.fail("rollback to %d failed: %v", H, rerr)
+				return
+			}
+			for h := H + k; h > H; h-- {
+				fs := r.undo[h]
+				for i := len(fs) - 1; i >= 0; i-- {
+					fs[i]()
+				}
+				delete(r.undo, h)
+			}
+			// blocks that were only in the pool are gone with the pool
+			for hs, rec := range r.sends {
+				if rec.confirmed == 0 {
+					delete(r.sends, hs)
+				}
+			}
+			kept := r.sendList[:0]
+			for _, hs := range r.sendList {
+				if r.sends[hs] != nil {
+					kept = append(kept, hs)
+				}
+			}
+			r.sendList = kept
+			pooled = pooled[:0]
+			c.Emit("L-rollback %d | ok", H)
+			c.Hit("rollback")
+			// the statement (C06/C14): after the switch the unconfirmed pool is that of a node that only saw the remaining
+			// chain and no gossip since: empty; and conservation holds for the pool state again
+			if left := n.Chain().GetAllUncommittedAccountBlocks(); len(left) != 0 {
+				var pl []string
+				for _, b := range left {
+					pl = append(pl, fmt.Sprintf("%s/%d:type%d", addrName(b.Address), b.Height, b.BlockType))
+				}
+				sort.Strings(pl)
+				r.fail("C06/C14: after rolling back %d momentum(s) the unconfirmed pool still holds blocks of the abandoned branch: [%s]", k, strings.Join(pl, " "))
+				return
+			}
+			r.poolMonitor(nil)
+			r.compareState()
 		default:
 			pooled = pooled[:0]
 			if !momentum() {
